@@ -188,6 +188,16 @@ Judge(e) ==
                 ELSE IF r.o.kind \in {"hang", "exit"} /\ e.biglicenses /\ r.mode \in {"auto", "cdx13", "cdx15"}
                      THEN {"pf.cdx-licenses-exponential"}
                 ELSE {"pf." \o r.mode \o "." \o r.o.kind} : r \in Rng(e.results)}
+    [] e.op = "TABLES" ->
+         \* the enum tables behind the SPDX translators: 44 relationship names (SPDX 2.3), the 16 shared checksum
+         \* algorithms, the 4 identifier types - each value maps to its name and back to itself
+         (IF \A r \in Rng(e.edges) : IF r[1] \in 1..44 THEN r[2] = EdgeName[r[1]] /\ r[3] = r[1] /\ r[4] = r[1] ELSE r[2] = ""
+          THEN {} ELSE {"rt.spdx.table.relationships"})
+         \cup (IF \A r \in Rng(e.hashes) : IF r[1] \in SPDXAlgos THEN r[2] # "" /\ r[3] = r[1] ELSE r[2] = ""
+               THEN {} ELSE {"rt.spdx.table.checksums"})
+         \cup (IF Cardinality({r[2] : r \in {x \in Rng(e.hashes) : x[1] \in SPDXAlgos}}) = 16 THEN {} ELSE {"rt.spdx.table.checksums"})
+         \cup (IF \A r \in Rng(e.idtypes) : IF r[1] \in 1..4 THEN r[2] # "" /\ r[3] # "OTHER" /\ r[4] = r[1] ELSE r[2] = ""
+               THEN {} ELSE {"rt.spdx.table.identifiers"})
     [] e.op = "PARSE" -> JParse(e)
     [] e.op = "IDGEN" ->
          (IF e.o.kind = "ok" THEN {} ELSE {"idgen.total"})
